@@ -253,6 +253,7 @@ class EngineB:
             "np_seed": st.u32("np"),
         }
         w = self._start(res.init)
+        w["recording"] = True
         # initial population: two shape families
         fam = self.cat.families(sw)
         w["families"] = fam
@@ -461,8 +462,8 @@ class EngineB:
                     outs.append(None)
                 outs[part_no] = nid
                 new_ids.append(nid)
-        if new_ids:
-            step["out"] = outs
+        if new_ids and w.get("recording"):
+            step["out"] = outs  # ids are fixed once, while the run is generated; a replay never rewrites its record
         if self.prop != "C05":
             for q in heap.ids():  # C19 histories judge only the malformed steps; keep snapshots current
                 heap.resnap(q)
